@@ -68,8 +68,13 @@ bool matchglob(const std::string& pattern, const std::string& name, bool caseIns
         while (*p != '\0' && matching) {
             switch (*p) {
             case '*':
+                // Consecutive asterisks are equivalent to a single one
+                while (p[1] == '*') {
+                    p++;
+                }
                 // Step forward until we match the next character after *
-                while (*n != '\0' && *n != p[1]) {
+                // (any character matches a following '?', so nothing can be skipped then)
+                while (p[1] != '?' && *n != '\0' && *n != p[1]) {
                     n++;
                 }
                 if (*n != '\0') {
